@@ -604,7 +604,47 @@ func init() {
 							}
 						}
 					case "ParseUint":
-						obs = append(obs, mkOb(c, "PARSE.number-conversion", u, ord.next("strconv.ParseUint"), ce, Violated, "an unsigned parse in the reader: the sign is applied afterwards, so the most negative integer cannot be read", true))
+						// an unsigned parse is a magnitude parse when its result is negated or becomes a lisp
+						// integer; the code point of an escape sequence (a rune written into a string) is not a
+						// numeric literal
+						var res types.Object
+						ast.Inspect(u.Decl.Body, func(m ast.Node) bool {
+							if as, ok := m.(*ast.AssignStmt); ok && len(as.Rhs) == 1 && ast.Unparen(as.Rhs[0]) == ast.Expr(ce) && len(as.Lhs) >= 1 {
+								res = identObj(info, as.Lhs[0])
+							}
+							return true
+						})
+						mentionsRes := func(e ast.Node) bool {
+							hit := false
+							ast.Inspect(e, func(k ast.Node) bool {
+								if id, ok := k.(*ast.Ident); ok && res != nil && info.Uses[id] == res {
+									hit = true
+								}
+								return !hit
+							})
+							return hit
+						}
+						magnitude := res == nil // not bound to a local: judge conservatively
+						ast.Inspect(u.Decl.Body, func(m ast.Node) bool {
+							switch x := m.(type) {
+							case *ast.UnaryExpr:
+								if x.Op == token.SUB && mentionsRes(x.X) {
+									magnitude = true
+								}
+							case *ast.CallExpr:
+								if f := Callee(info, x); f != nil && f.Pkg() != nil && rel(f.Pkg().Path()) == "lisp" && (f.Name() == "Int" || f.Name() == "Float") {
+									for _, a := range x.Args {
+										if mentionsRes(a) {
+											magnitude = true
+										}
+									}
+								}
+							}
+							return true
+						})
+						if magnitude {
+							obs = append(obs, mkOb(c, "PARSE.number-conversion", u, ord.next("strconv.ParseUint"), ce, Violated, "an unsigned parse in the reader: the sign is applied afterwards, so the most negative integer cannot be read", true))
+						}
 					}
 					return true
 				})
